@@ -10,4 +10,6 @@ for p in $(go list ./props/... 2>/dev/null); do
   n=$(echo "$p" | sed 's#verifharness/##; s#/#_#g')
   go test -tags verif -c -vet=off -o ../out/bin/$n.test "$p" || exit 1
 done
+# the race-detector build used by C19
+go test -tags verif -race -c -vet=off -o ../out/bin/props_races.race.test ./props/races || exit 1
 echo setup done
